@@ -90,6 +90,8 @@ class ServerTwin:
     def _find_nameplate(self, app):
         if self.next_nameplates:
             return self.next_nameplates.pop(0)
+        if getattr(self, "alloc_nameplate", None):
+            return self.alloc_nameplate
         n = 1
         while str(n) in app["nameplates"]:
             n += 1
